@@ -141,10 +141,7 @@ def chk_answers(entry, words, lo=None, hi=None):
         if not ok or len(ent) * 8 != ent_bits:
             viols.append(V("%s:%s:mnemonic:wrong-size-or-checksum" % (P, entry), "mnemonic %r" % r["mnemonic"]))
             return n, viols, {"R": Rb}
-        if r["mnemonic"] in seen:
-            viols.append(V("%s:%s:distinct-answers:same-wallet" % (P, entry), "%d words: OS answers %s and %s give the same mnemonic" % (
-                words, seen[r["mnemonic"]].hex()[:40], a.hex()[:40])))
-        seen[r["mnemonic"]] = a
+        seen.setdefault(r["mnemonic"], a)
         ents.append(int.from_bytes(ent, "big"))
     ones = zeros = 0
     for e in ents:
@@ -153,6 +150,7 @@ def chk_answers(entry, words, lo=None, hi=None):
     full = (1 << ent_bits) - 1
     if lo is not None:
         return n, viols, {"R": Rb, "entry": entry, "words": words, "ones": ones, "zeros": zeros & full, "mn": {m: a.hex() for m, a in seen.items()}, "total": total}
+    viols += too_few_distinct(entry, words, len(seen), Rb)
     stuck1 = full & ~zeros      # bits that were 1 in every sample
     stuck0 = full & ~ones       # bits that were 0 in every sample
     if stuck0 or stuck1:
@@ -161,6 +159,18 @@ def chk_answers(entry, words, lo=None, hi=None):
         viols.append(V("%s:%s:entropy-bit:%s-never-varies" % (P, entry, "msb" if msb else "some-bit"),
                        "%d words: entropy bit(s) %r (bit %d = most significant) never change over %d different OS answers" % (words, bits[:6], ent_bits - 1, len(answers))))
     return n, viols, {"R": Rb}
+
+
+def too_few_distinct(entry, words, distinct, Rb):
+    """the answer alphabet = all-zero, all-one and every single-bit answer over the R requested bytes. A design may request
+    more than ENT/8 bytes and ignore the rest (answers that differ only in ignored bits then coincide - an artefact of the
+    substitution, not a defect); but ENT bits of the answer must each change the wallet, so at least ENT + 1 distinct wallets
+    must appear among the answers."""
+    ent_bits = LENGTHS[words]
+    if Rb * 8 >= ent_bits and distinct < ent_bits + 1:
+        return [V("%s:%s:distinct-answers:same-wallet" % (P, entry), "%d words: the %d single-bit OS answers (+ all-zero, all-one) give only %d distinct mnemonics; "
+                  "%d entropy bits need at least %d" % (words, Rb * 8, distinct, ent_bits, ent_bits + 1), distinct, ent_bits + 1)]
+    return []
 
 
 def chk_function_of_answer(entry, words):
@@ -271,9 +281,9 @@ def run(ctx):
         for w in LENGTHS:
             if e == "cli-new" and not ctx.thorough and w not in (12, 24):
                 continue
-            total = 2 + LENGTHS[w]          # provisional (R = ENT/8); slices beyond the real alphabet are empty
+            total = 2 + 8 * 64              # room for designs that request up to 64 bytes; slices beyond the real alphabet are empty
             step = 24 if e != "cli-new" else 8
-            cases += [{"k": "answers", "entry": e, "words": w, "lo": lo, "hi": lo + step} for lo in range(0, total + 64, step)]
+            cases += [{"k": "answers", "entry": e, "words": w, "lo": lo, "hi": lo + step} for lo in range(0, total, step)]
     agg = ctx.product("os-answer-alphabet", cases, execute, chunk=1)
     # cross-answer verdicts: merge the slices of each (entry, words)
     groups = {}
@@ -289,10 +299,10 @@ def run(ctx):
             ones |= x["ones"]
             zeros |= x["zeros"]
             for m, a in x["mn"].items():
-                if m in mn and mn[m] != a:
-                    ctx.violate("os-answer-alphabet", V("%s:%s:distinct-answers:same-wallet" % (P, e), "%d words: OS answers %s and %s give the same mnemonic" % (w, mn[m][:40], a[:40]),
-                                                        case={"k": "answers", "entry": e, "words": w}))
-                mn[m] = a
+                mn.setdefault(m, a)
+        for v in too_few_distinct(e, w, len(mn), max(x["R"] for x in xs)):
+            v["case"] = {"k": "answers", "entry": e, "words": w}
+            ctx.violate("os-answer-alphabet", v)
         stuck = full & ~(ones & zeros)
         if stuck and len(mn) > 1:
             msb = bool(stuck >> (bits - 1))
